@@ -225,8 +225,10 @@ fn sjis_field(w: usize, r: &mut Rng) -> Vec<u8> {
 	out.truncate(w);
 	if out.len() < w {
 		out.push(0);
+		// (one time in three: stale ASCII text and further NULs after the first NUL; otherwise any bytes)
+		let ascii_pad = r.chance(1, 3);
 		while out.len() < w {
-			out.push(r.byte());
+			out.push(if ascii_pad { *r.pick(&[0x41u8, 0x7A, 0x20, 0x00, 0x31, 0x7E]) } else { r.byte() });
 		}
 	}
 	out
